@@ -7,6 +7,7 @@ process spawning (git), wall clock, file open/read outcomes and stdout device ar
 the plan.  Nothing in here draws random numbers or reads a real clock: the plan is the only input.
 """
 import builtins
+import ctypes
 import datetime as _datetime_mod
 import errno as _errno
 import hashlib
@@ -17,6 +18,7 @@ import random
 import runpy
 import subprocess as _subprocess_mod
 import sys
+import threading
 import time as _time_mod
 import traceback
 
@@ -100,6 +102,9 @@ def resolve_faults(faults, twin, bufsize=4096):
             else:
                 at = f.get("at_byte", 0)
             c["at_byte"] = max(0, min(at, max(0, n - 1)))
+        elif op in ("interrupt", "memerror"):
+            n = max(1, twin.get("steps", 1))
+            c["at_step"] = max(1, min(n, (n * f["permille"]) // 1000))
         out.append(c)
     return out
 
@@ -408,6 +413,9 @@ class Sim:
             # that is the interpreter's behaviour, not the tool's, so it is never injected there.
             self.faults = [f for f in self.faults if not (f["op"] == "write" and f["kind"] == "short")]
         self.write_faults = [f for f in self.faults if f["op"] == "write"]
+        self.step_faults = [f for f in self.faults if f["op"] in ("interrupt", "memerror")]
+        self.next_step_fault = None
+        self.arm_step_faults()
 
     # -- log -----------------------------------------------------------------------------------
     def log(self, op, **kw):
@@ -538,7 +546,15 @@ class Sim:
             f["_done"] = True
             self.deliver(f, target=rel)
             raise _oserror(f["errno"], os.fspath(file))
-        real = self.real_open(file, mode, *a, **kw)
+        if self.plan["env"].get("crlf") and "b" not in mode:
+            # the same tree checked out with core.autocrlf=true: every line ends in \r\n on disk
+            with self.real_open(file, "rb") as bf:
+                raw_bytes = bf.read().replace(b"\r\n", b"\n").replace(b"\n", b"\r\n")
+            enc = kw.get("encoding") or (a[1] if len(a) > 1 else None) or "utf-8"
+            real = io.TextIOWrapper(io.BytesIO(raw_bytes), encoding=enc, errors=kw.get("errors"), newline=kw.get("newline"))
+            self.probe("crlf_checkout")
+        else:
+            real = self.real_open(file, mode, *a, **kw)
         return _CountingFile(self, rel, real, self.fault_for("read", rel))
 
     # -- clock ---------------------------------------------------------------------------------
@@ -560,7 +576,27 @@ class Sim:
             self.steps += 1
             if self.steps > self.step_budget:
                 raise StepBudgetExceeded()
+            if self.next_step_fault is not None and self.steps >= self.next_step_fault:
+                self.fire_step_fault()
         return self.local_tracer
+
+    def arm_step_faults(self):
+        pend = [f for f in self.step_faults if not f.get("_done")]
+        self.next_step_fault = min((f["at_step"] for f in pend), default=None)
+
+    def fire_step_fault(self):
+        for f in sorted(self.step_faults, key=lambda f: f["at_step"]):
+            if f.get("_done") or f["at_step"] > self.steps:
+                continue
+            f["_done"] = True
+            self.arm_step_faults()
+            self.deliver(f, at_step=self.steps)
+            # Raised asynchronously in this very thread (like a signal handler would), not from
+            # the trace function itself: an exception escaping a trace function switches tracing
+            # off, and the step budget must stay armed for the rest of the run.
+            exc = KeyboardInterrupt if f["op"] == "interrupt" else MemoryError
+            ctypes.pythonapi.PyThreadState_SetAsyncExc(ctypes.c_ulong(threading.get_ident()), ctypes.py_object(exc))
+            return
 
     # -- the run -------------------------------------------------------------------------------
     def run(self):
@@ -669,7 +705,7 @@ class Sim:
                 exc_name = "EventBudgetExceeded"
             except BaseException as e:  # uncaught exception: CPython prints it and exits 1
                 sys.settrace(None)
-                status = 1
+                status = 130 if isinstance(e, KeyboardInterrupt) else 1
                 exc_name = type(e).__name__
                 tb_tail = "".join(traceback.format_exception_only(type(e), e)).strip()[-400:]
             finally:
@@ -765,4 +801,5 @@ def footprint(res):
         "lines": res["lines"],
         "listed": res["listed"],
         "out_len": res["out_len"],
+        "steps": res["steps"],
     }
